@@ -213,7 +213,7 @@ def boolean(name, default=None):
 
 def array(name, shape, lo=None, hi=None, pos=False, kind="real"):
     """object array (sym/const) or float array (plain) of fresh input variables"""
-    shape = tuple(shape) if not isinstance(shape, int) else (shape,)
+    shape = tuple(shape) if not isinstance(shape, (int, np.integer)) else (int(shape),)
     n = int(np.prod(shape)) if shape else 1
     if kind == "real":
         elems = [real(f"{name}_{i}", lo, hi, pos) for i in range(n)]
